@@ -25,6 +25,11 @@ def mono_div(t, d):
             out.append((a, e))
             continue
         seen.add(a)
+        if f < 0 and e < 0 and f < e:
+            # inverse powers: s^-2 q = 1 may be needed at s^-1 (multiplier
+            # gets a positive power of the atom)
+            out.append((a, e - f))
+            continue
         if (f > 0) != (e > 0) or abs(f) > abs(e):
             return None
         if e - f:
@@ -261,6 +266,15 @@ def prove_zero(ctx, name, x, rounds=2, max_deg=8, max_inst=6000, key=None,
         rec = ctx.prove(name, g, backend='z3-nra', key=key)
         rec['candidate'] = (r == 'sat')
         return rec
+    w = None
+    if not ctx.lazy_decide:
+        st = ctx.check(backend='witness')
+        if st == 'unsat':
+            # the path condition itself is unsatisfiable: the obligation
+            # holds vacuously on this (infeasible) path
+            return ctx.record(name, 'unsat', 'infeasible-path', key=key)
+        if st == 'sat':
+            w = ctx.model_values()
     return ctx.record(name, 'unknown' if r != 'sat' else 'sat',
                       'lra-abstraction', key=key, candidate=True,
-                      model=ctx.witness() or {})
+                      model=w or {})
